@@ -509,7 +509,7 @@ def run(ck):
     reqs += gen_lines(rng, 1500 if q else 40000, 300 if q else 5000, 4000 if q else 150000, 2000 if q else 60000)
     mts = [gen_mt(rng) for _ in range(300 if q else 6000)]
     text = "".join(r["line"] + "\n" for r in reqs)
-    pi = ck.run([harness], input=text + "".join(r["line"] + "\n" for r in mts), timeout=1500)
+    pi = c48lib.run_harness(ck, harness, text + "".join(r["line"] + "\n" for r in mts))
     pm = ck.run([driver], input=text, timeout=1500)
     if pi.returncode != 0:
         ck.violation("harness-crash", "the implementation harness aborted (sanitizer or crash)",
